@@ -468,7 +468,7 @@ func genC14Thread(r rnd, t, threads int, hot []p9p.Fid) []fsx.Op {
 }
 
 func runC14(w *mon.W) {
-	total := w.Scale(1600, 60000)
+	total := w.Scale(1600, 150000)
 	for i := 0; i < total; i++ {
 		if !w.Mine(i) {
 			continue
